@@ -66,6 +66,7 @@ ImplLoads == AtEnd /\ O.status = "raised" =>
                \/ O.why = "structure" /\ CellSrc(E.ea) \in {"ucfile", "scfile"} /\ Reader(E.ea.calcArg) # E.ea.fmt
                \/ O.why = "symmetry" /\ E.eo.cell.fragile /\ E.eo.np.tol = "loose"
                                       /\ (E.ea.np.tol = "default" \/ ~FromFile(E.ea))
+               \/ O.why = "dataset" /\ E.eo.np.issym /\ ~E.ea.np.issym /\ ~E.eo.cell.allIndep /\ E.ea.produceFc
 (* what save() does not record *)
 ImplAtomOrder == AtEnd => ReqAtomOrder(E.eo, E.ea, R)
 ImplTolerance == AtEnd => ReqTolerance(E.eo, E.ea, R)
@@ -93,7 +94,7 @@ ImplPhonons == AtEnd /\ OkObs => O.q.phonons <= 1
 (* whenever the saved file determines the force data and NAC of the reloaded object, phonons were compared *)
 Comparable ==
   /\ OkObs /\ E.ea.calcArg = "none" /\ FromFile(E.ea)
-  /\ O.np.order = Order(E.eo, E.eo.np.snf)
+  /\ O.np.order = Order(E.eo, E.eo.np.snf) /\ O.np.tol = E.eo.np.tol    \* same atoms, same symmetry search
   /\ (O.fc.src = "yaml" \/ (O.fc.src = "produced" /\ O.fc.sym /\ O.ds.src = "yaml" /\ DerivedFcComparable(E.eo, R)))
   /\ ((E.eo.nac.kind = "none" /\ O.nac.src = "none") \/ O.nac.src = "yaml")
 (* -2: comparable but skipped for the time budget (costly Gonze-Lee NAC), decided by the harness's seed *)
